@@ -58,8 +58,10 @@ IsBin(c)   == c = 48 \/ c = 49
 IsWordCh(c) == IsUpper(c) \/ IsLower(c) \/ IsDigit(c) \/ c = 95 \/ c = 36
 
 \* linear-time maximum / minimum (FiniteSetsExt!Max is a quadratic CHOOSE)
-MaxOf(S) == FoldSet(LAMBDA a, b : IF a > b THEN a ELSE b, -1, S)
-MinOf(S) == LET m == MaxOf(S) IN FoldSet(LAMBDA a, b : IF a < b THEN a ELSE b, m, S)
+Max2(a, b) == IF a > b THEN a ELSE b
+Min2(a, b) == IF a < b THEN a ELSE b
+MaxOf(S) == FoldSet(Max2, -1, S)
+MinOf(S) == FoldSet(Min2, MaxOf(S), S)
 
 RECURSIVE Sorted(_)
 Sorted(S) == IF S = {} THEN <<>> ELSE LET m == MinOf(S) IN <<m>> \o Sorted(S \ {m})
